@@ -42,6 +42,8 @@ def rust_ty(t):
         return "(%s, %s)" % (rust_ty(t[1]), rust_ty(t[2]))
     if k == "arr":
         return "[%s; 2]" % rust_ty(t[1])
+    if k == "tuple1":
+        return "(%s,)" % rust_ty(t[1])
     if k == "box":
         return "Box<%s>" % rust_ty(t[1])
     if k == "map":
@@ -69,6 +71,8 @@ def samples(t, inner_samples):
         return ["(%s, %s)" % (s[0], s2[0]), "(%s, %s)" % (s[-1], s2[-1])]
     if k == "arr":
         return ["[%s, %s]" % (s[0], s[-1])]
+    if k == "tuple1":
+        return ["(%s,)" % s[0], "(%s,)" % s[-1]]
     if k == "box":
         return ["Box::new(%s)" % x for x in s]
     if k == "map":
@@ -82,7 +86,7 @@ def field_types(refname=None):
     out = list(SCALARS)
     for x in ("i32", "String"):
         out += [("opt", x), ("vec", x), ("arr", x), ("box", x), ("map", x)]
-    out += [("tuple", "i32", "String"), ("opt", ("vec", "u8")), ("vec", ("opt", "bool")), ("set", "String"), ("set", "i32"), ("opt", ("set", "u8")), ("opt", "char"), ("vec", "char")]
+    out += [("tuple", "i32", "String"), ("opt", ("vec", "u8")), ("vec", ("opt", "bool")), ("set", "String"), ("set", "i32"), ("opt", ("set", "u8")), ("opt", "char"), ("vec", "char"), ("tuple1", "i32"), ("tuple1", "String"), ("opt", ("tuple1", "bool"))]
     if refname:
         out += [("ref", refname), ("opt", ("ref", refname)), ("vec", ("ref", refname)), ("box", ("ref", refname)), ("map", ("ref", refname))]
     return out
@@ -220,7 +224,7 @@ def universes(tier):
                 t.derive_default = True
             add(t, desc="struct2{%s}" % ",".join("%s=%s" % c if c[1] else c[0] for c in combo))
     # enums: tagging x variant kind sets
-    payloads = ["i32", "String", ("vec", "u8"), ("opt", "i32"), ("tuple", "i32", "String")] if tier != "quick" else ["i32", "String"]
+    payloads = ["i32", "String", ("vec", "u8"), ("opt", "i32"), ("tuple", "i32", "String"), ("tuple1", "i32"), ("arr", "i32")] if tier != "quick" else ["i32", "String", ("tuple1", "i32")]
     for tagging in TAGGINGS:
         vsets = []
         kinds = ["unit", "newtype", "tuple", "struct"]
